@@ -155,9 +155,9 @@ def make_param(V, cls, pname, depth, tag):
             return ShapeDeformation(_num(V, f"{tag}_maxv", 0.001, 0.5), mask=m)
         return Ball(_num(V, f"{tag}_step", 0.01, 2))
     if pname == "step_size":
-        return _num(V, f"{tag}_step", 0.01, 2)
+        return _num(V, f"{tag}_step", 0, 2)
     if pname == "max_value":
-        return _num(V, f"{tag}_maxv", 0.001, 0.5)
+        return _num(V, f"{tag}_maxv", 0, 0.5)
     if pname == "mask":
         m = np.ones((3, 3), dtype=bool)
         m[2, 2] = False
@@ -170,7 +170,7 @@ def make_param(V, cls, pname, depth, tag):
     if pname == "max_steps":
         return 7
     if pname == "bias_towards_insert":
-        return _num(V, f"{tag}_bias", 0.05, 0.95)
+        return _num(V, f"{tag}_bias", 0, 1)
     if pname == "moves":
         from quansino.moves.displacement import DisplacementMove
         from quansino.moves.exchange import ExchangeMove
@@ -197,12 +197,13 @@ def make_param(V, cls, pname, depth, tag):
         from quansino.mc.criteria import IsobaricCriteria
 
         return IsobaricCriteria()
+    # scheduling fields over their whole legal range, the falsy ends included (probability 0 = forced-only move)
     if pname == "interval":
-        return 3
+        return V.int(f"{tag}_interval", 1, 9)
     if pname == "probability":
-        return _num(V, f"{tag}_prob", 0.01, 1)
+        return _num(V, f"{tag}_prob", 0, 1)
     if pname == "minimum_count":
-        return 2
+        return V.int(f"{tag}_mincount", 0, 3)
     return None
 
 
@@ -230,7 +231,7 @@ def build(V, cls, depth=0, tag="x"):
             except AttributeError:
                 pass
     if hasattr(obj, "bias_towards_insert") and "bias_towards_insert" not in kwargs:
-        obj.bias_towards_insert = _num(V, f"{tag}_cbias", 0.05, 0.95)
+        obj.bias_towards_insert = _num(V, f"{tag}_cbias", 0, 1)
     return obj
 
 
